@@ -11,7 +11,7 @@ SIG = {'btry': 'x', 'fpt': 'ddd', 'dig': 'xd'}
 encode = default_encode(SIG)
 decode = default_decode(SIG)
 TASK_REQS = 1500
-RULE = ('every source value goes through BTryFrom into all 32 types of the cast list and TryFrom into all 12 primitives; primitives, '
+RULE = ('every source value goes through BTryFrom into all 34 types of the cast list and TryFrom into all 12 primitives; primitives, '
         'bool and char go through From/TryFrom into every configuration at least as wide as the source (strictly wider for unsigned '
         'source -> signed target); digit-array accessors are checked by three independent routes. Sources are aimed at the '
         'targets\' MAX, MAX+1, MIN, MIN-1 and at inconsistent sign/padding digits. Non-trivial: the value lies within 1 of a '
